@@ -151,7 +151,9 @@ def sched_items(tier, seed):
 
 def make_selector(name, arms, hp):
     B, g, z = hp
-    tasks = np.arange(arms)
+    # task ids are deliberately not 0..n-1 (2, 5, 8, ...): a selector must return an element of its task set,
+    # not an arm index
+    tasks = 3 * np.arange(arms) + 2
     if name == "DUCB":
         from rl_blox.blox.mapb import DUCB
 
@@ -159,7 +161,9 @@ def make_selector(name, arms, hp):
     if name == "TaskSelector":
         from rl_blox.blox.multitask import TaskSelector
 
-        return TaskSelector(tasks)
+        # the base class is a protocol skeleton that always answers 0: it is only explored for the
+        # select / feedback alternation, with the identity task set
+        return TaskSelector(np.arange(arms))
     from rl_blox.algorithm.active_mt import TASK_SELECTORS
 
     cls, kw = TASK_SELECTORS[name]
@@ -169,7 +173,12 @@ def make_selector(name, arms, hp):
 
 
 def do_select(name, obj):
-    return obj.choose_arm() if name == "DUCB" else obj.select()
+    if name == "DUCB":
+        return obj.choose_arm()
+    t = obj.select()
+    pos = np.nonzero(np.asarray(obj.tasks) == t)[0]
+    # the rest of the search works on arm positions; an id outside the task set maps to -1 (reported as invalid)
+    return int(pos[0]) if len(pos) == 1 else -1
 
 
 def do_feedback(name, obj, r):
